@@ -1873,6 +1873,10 @@ class FileIterator(FileStorageFormatter):
         file.seek(pos1)
         tid1 = file.read(8)  # XXX bytes
         if len(tid1) < 8:
+            if pos1 + len(tid1) == self._file_size:
+                # The first transaction is still being written: there is
+                # no complete transaction to skip to.
+                return
             raise CorruptedError("Couldn't read tid.")
         if start < tid1:
             pos2 = pos1
@@ -1893,10 +1897,10 @@ class FileIterator(FileStorageFormatter):
             # small enough, otherwise we'll fail.
             file.seek(self._file_size - 8)
             l_ = u64(file.read(8))
-            if not (l_ + 12 <= self._file_size and
+            if not (TRANS_HDR_LEN <= l_ and l_ + 12 <= self._file_size and
                     self._read_num(self._file_size - l_) == l_):
                 if self._file_size < (1 << 20):
-                    return self._scan_foreward(start)
+                    return self._scan_forward(pos1, start)
                 raise ValueError("Can't find last transaction in large file")
             pos2 = self._file_size - l_ - 8
             file.seek(pos2)
@@ -1923,7 +1927,13 @@ class FileIterator(FileStorageFormatter):
                      self._file_name, pos, start)
         while 1:
             # Read the transaction record
-            h = self._read_txn_header(pos)
+            try:
+                h = self._read_txn_header(pos)
+            except CorruptedDataError:
+                # End of the file, or a header that is still being
+                # written: nothing at or after `start` is complete yet.
+                self._pos = pos
+                return
             if h.tid >= start:
                 self._pos = pos
                 return
@@ -1967,7 +1977,12 @@ class FileIterator(FileStorageFormatter):
                 # If buf is empty, we've reached EOF.
                 if not err.buf:
                     break
-                raise
+                # A short header at the end of the file: a transaction
+                # that is still being written (or was cut off by a
+                # crash).  It is not part of the committed history.
+                logger.warning("%s truncated, possibly due to"
+                               " damaged records at %s", self._file.name, pos)
+                break
 
             if h.tid <= self._ltid:
                 logger.warning("%s time-stamp reduction at %s",
